@@ -206,6 +206,8 @@ pub struct W {
     pub sess: Session,
     pub probe: Session,
     pub probe_n: usize,
+    /// the link channel of the secondary `x:1` the node knows from the start
+    pub _member_rx: futures::channel::mpsc::Receiver<String>,
 }
 
 pub struct C10 {
@@ -290,7 +292,13 @@ pub fn make_world(kind: Kind) -> W {
     let mut probe = Session::new();
     probe.exec(&node, "use-db t tok");
     loops.run_all(&mut node, 20);
-    W { steps: 0, node, loops, sess, probe, probe_n: 0 }
+    // the node is the primary of a cluster: the secondary x:1 (the name the cluster commands of the alphabet use)
+    // is a member from the start, and one operation sent to it is still unacknowledged - cluster commands have
+    // a known member and a pending operation to act upon without a preceding `join`
+    let (tx, rx) = futures::channel::mpsc::channel::<String>(1000);
+    node.dbs.add_cluster_member(ClusterMember { name: "x:1".to_string(), role: ClusterRole::Secoundary, sender: Some(tx) });
+    node.dbs.register_pending_opp(5, "replicate t k -1 1".to_string(), &"x:1".to_string());
+    W { steps: 0, node, loops, sess, probe, probe_n: 0, _member_rx: rx }
 }
 
 /// value / key classes: the crash oracle can only depend on these, not on the exact strings
